@@ -78,9 +78,14 @@ func (m *zzSandboxes) Get(name string) (pipservices.Sandbox, error) {
 // begins after a failed prerequisite (and then the task ends failed), and
 // TasksManager.Wait returns after all tasks, reporting an error iff some task
 // failed.
-func ZZVerifC14Graph() {
-	nd.Schedule(nd.Param("P", 1))
-	t := nd.Param("T", 2)
+func ZZVerifC14Graph() { zzGraph(nd.Param("P", 1), nd.Param("T", 2), nd.Param("FIXED", 0) == 1) }
+
+// ZZVerifC14WaitAll: three tasks, the third waits for both others (every
+// entry of a wait list is honoured, not just one).
+func ZZVerifC14WaitAll() { zzGraph(nd.Param("WP", 1), 3, true) }
+
+func zzGraph(pBound, t int, fixed bool) {
+	nd.Schedule(pBound)
 	trace := &zzTrace{}
 	names := []string{"t0", "t1", "t2"}
 	fails := make([]bool, t)
@@ -89,6 +94,12 @@ func ZZVerifC14Graph() {
 	for i := 0; i < t; i++ {
 		fails[i] = nd.Bool("fails")
 		for j := 0; j < i; j++ {
+			if fixed {
+				if i == 2 {
+					waits[i] = append(waits[i], j)
+				}
+				continue
+			}
 			if nd.Bool("waits") {
 				waits[i] = append(waits[i], j)
 			}
